@@ -159,7 +159,8 @@ type Req struct {
 	Hdr    [][2]string
 	Body   []byte
 	Lat    time.Duration
-	Mode   string // "", hang, upgrade, close
+	Gap    time.Duration // stream mode: delay between the two parts of the response
+	Mode   string        // "", hang, upgrade, close, stream, hints
 	TLS    bool
 	SNI    string
 	Raw    []byte // sent verbatim when set
@@ -215,6 +216,7 @@ type World struct {
 	LogBuf        *lockedBuffer
 	WG            sync.WaitGroup
 	prevClient    *http.Client
+	prevTransport http.RoundTripper
 	prevLog       *slog.Logger
 	seq           int
 	LogLevel      slog.Level
@@ -249,6 +251,10 @@ func NewWorld(t *testing.T, opt WorldOpt) *World {
 	w.probeTr = &http.Transport{DialContext: w.dialProbe, DisableKeepAlives: true}
 	w.prevClient = http.DefaultClient
 	http.DefaultClient = &http.Client{Transport: w.probeTr}
+	// a client created without an explicit transport uses http.DefaultTransport: route that to the
+	// fake network too, so that a refactor of the prober to its own http.Client is still observed
+	w.prevTransport = http.DefaultTransport
+	http.DefaultTransport = w.probeTr
 	w.prevLog = slog.Default()
 	slog.SetDefault(slog.New(slog.NewJSONHandler(w.LogBuf, &slog.HandlerOptions{Level: slog.LevelInfo})))
 
@@ -668,6 +674,25 @@ func (ft *FakeTarget) defaultHandle(c net.Conn, br *bufio.Reader, req *http.Requ
 		ft.end(rec, "aborted")
 		return false
 	}
+	if mode == "stream" {
+		// a response without Content-Length, streamed in two chunks with the latency between them
+		// (the proxy relays and flushes the first part while the second is still to come)
+		if _, err := fmt.Fprintf(c, "HTTP/1.1 200 OK\r\nTransfer-Encoding: chunked\r\nX-Target: %s\r\n\r\n5\r\npart1\r\n", ft.Name); err != nil {
+			ft.end(rec, "writeerr")
+			return false
+		}
+		gap, _ := strconv.ParseInt(req.Header.Get("X-Gap"), 10, 64)
+		if !ft.waitOrClosed(c, br, time.Duration(gap)) {
+			ft.end(rec, "aborted")
+			return false
+		}
+		if _, err := fmt.Fprintf(c, "5\r\npart2\r\n0\r\n\r\n"); err != nil {
+			ft.end(rec, "writeerr")
+			return false
+		}
+		ft.end(rec, "done")
+		return true
+	}
 	if mode == "hints" { // informational response(s) before the final one
 		fmt.Fprintf(c, "HTTP/1.1 103 Early Hints\r\nLink: </style.css>; rel=preload\r\n\r\n")
 	}
@@ -803,6 +828,9 @@ func (r Req) bytes() []byte {
 	}
 	if r.Mode != "" {
 		fmt.Fprintf(&b, "X-Mode: %s\r\n", r.Mode)
+	}
+	if r.Gap > 0 {
+		fmt.Fprintf(&b, "X-Gap: %d\r\n", int64(r.Gap))
 	}
 	if r.Mode == "upgrade" {
 		b.WriteString("Connection: Upgrade\r\nUpgrade: websocket\r\n")
@@ -1034,6 +1062,7 @@ func (w *World) Close() {
 	server.VerifHook.Store(nil)
 	server.VerifDial.Store(nil)
 	http.DefaultClient = w.prevClient
+	http.DefaultTransport = w.prevTransport
 	slog.SetDefault(w.prevLog)
 }
 
@@ -1043,6 +1072,15 @@ func (w *World) CopyState() string {
 	dir := w.T.TempDir()
 	b, err := os.ReadFile(w.StatePath)
 	if err == nil {
+		os.WriteFile(filepath.Join(dir, "kamal-proxy.state"), b, 0o644)
+	}
+	return dir
+}
+
+// CopyStateOf copies the given state file into a fresh directory and returns the directory.
+func (w *World) CopyStateOf(statePath string) string {
+	dir := w.T.TempDir()
+	if b, err := os.ReadFile(statePath); err == nil {
 		os.WriteFile(filepath.Join(dir, "kamal-proxy.state"), b, 0o644)
 	}
 	return dir
